@@ -149,9 +149,9 @@ def gen_knobs(rk, cls):
 
 
 # extra operations appended to every mix: construct, mkdict, mutdict, dropdict
-EXTRA_OPS = ['construct', 'mkdict', 'mutdict', 'dropdict']
-EXTRA_WEIGHTS = {'balanced': [4, 2, 2, 1], 'drop': [2, 2, 1, 3], 'inline': [2, 1, 1, 1], 'handler': [5, 5, 5, 2],
-                 'subscript': [4, 1, 1, 1]}
+EXTRA_OPS = ['construct', 'mkdict', 'mutdict', 'dropdict', 'resubscript']
+EXTRA_WEIGHTS = {'balanced': [4, 2, 2, 1, 3], 'drop': [2, 2, 1, 3, 2], 'inline': [2, 1, 1, 1, 1], 'handler': [5, 5, 5, 2, 1],
+                 'subscript': [4, 1, 1, 1, 14]}
 
 MIXES = {
     #            defclass build convert inline lookup serialise keep subscript drop gc tcleanup arm
@@ -187,14 +187,44 @@ def resolve(ast, root_asts):
         return ['ann', resolve(ast[1], root_asts), ast[2]]
     if ast[0] == 'gen':
         return ['gen', ast[1]] + [resolve(a, root_asts) for a in ast[2:]]
+    if ast[0] == 'gen2':
+        return root_asts_resolved_gen2(ast, root_asts)
     if ast[0] == 'tagged':
         return ast[:3] + [resolve(a, root_asts) for a in ast[3:]]
     return [ast[0]] + [resolve(a, root_asts) for a in ast[1:]]
 
 
+def free_typevars(ast, acc=None):
+    """Type-variable names in order of first appearance (the order of __parameters__)."""
+    acc = [] if acc is None else acc
+    if ast[0] == 'tv':
+        if ast[1] not in acc:
+            acc.append(ast[1])
+    elif ast[0] == 'dl':
+        for (_, a) in ast[1]:
+            free_typevars(a, acc)
+    elif ast[0] == 'ann':
+        free_typevars(ast[1], acc)
+    elif ast[0] not in ('s', 'cls', 'enum', 'lit', 'ref'):
+        for a in ast[{'gen': 2, 'gen2': 2, 'tagged': 3}.get(ast[0], 1):]:
+            if isinstance(a, list):
+                free_typevars(a, acc)
+    return acc
+
+
+def root_asts_resolved_gen2(ast, root_asts):
+    """['gen2', rootname, params...] -> the equivalent fully spelled ['gen', G, ...] expression."""
+    base = root_asts[ast[1]]
+    free = []
+    for a in base[2:]:
+        free_typevars(a, free)
+    binding = dict(zip(free, [resolve(a, root_asts) for a in ast[2:]]))
+    return tg.subst(base, binding)
+
+
 def _inject_refs(rng, ast, roots, depth=0):
     """With some probability replace a sub-expression by a reference to an existing root."""
-    if not roots or ast[0] in ('s', 'cls', 'enum', 'lit', 'tv', 'ref', 'set', 'tset', 'frozenset', 'ann', 'range', 'gen', 'tagged'):
+    if not roots or ast[0] in ('s', 'cls', 'enum', 'lit', 'tv', 'ref', 'set', 'tset', 'frozenset', 'ann', 'range', 'gen', 'gen2', 'tagged'):
         return ast
     if ast[0] == 'dl':
         return ['dl', [[n, _inject_refs(rng, a, roots, depth + 1)] for (n, a) in ast[1]]]
@@ -227,6 +257,7 @@ def gen_plan(seed: int, cls: str) -> dict:
     opnames = OPNAMES + EXTRA_OPS
     hdicts = {}
     ndict = 0
+    partials = {}
     class_customs = CLASS_CUSTOMS if knobs['mix'] == 'handler' else [None, None, None] + CLASS_CUSTOMS
     hspecs = list(HANDLER_SPECS)
     if knobs.get('hpair'):
@@ -281,7 +312,7 @@ def gen_plan(seed: int, cls: str) -> dict:
             ncls += 1
         elif name == 'build':
             ast = tg.gen_type(ro, sym, kinds, C10_SCALARS, max_depth=3)
-            ast = _inject_refs(ro, ast, roots)
+            ast = tg.normalise_unions(_inject_refs(ro, ast, roots))
             rname = f'r{nroot}'
             nroot += 1
             roots[rname] = resolve(ast, roots)
@@ -293,7 +324,7 @@ def gen_plan(seed: int, cls: str) -> dict:
             ops.append({'op': 'convert', 'root': r, 'data': probe(roots[r]), 'custom': pick_custom()})
         elif name == 'inline':
             ast = tg.gen_type(ro, sym, kinds, C10_SCALARS, max_depth=2)
-            ast = _inject_refs(ro, ast, roots)
+            ast = tg.normalise_unions(_inject_refs(ro, ast, roots))
             ops.append({'op': 'inline', 't': ast, 'data': probe(resolve(ast, roots)), 'custom': pick_custom()})
         elif name == 'lookup':
             if not roots:
@@ -331,11 +362,22 @@ def gen_plan(seed: int, cls: str) -> dict:
                 else:
                     params.append(tg.gen_type(ro, sym, [k for k in kinds if k not in ('tl', 'dl', 'gen')], C10_SCALARS,
                                               depth=1, max_depth=2, top=False))
+            if ro.random() < 0.4:
+                # partial binding: some parameters stay (or contain) type variables; the result can be subscripted again
+                for j in range(ntv):
+                    if ro.random() < 0.6:
+                        tvn = ro.choice(['T', 'U'])
+                        params[j] = ro.choice([['tv', tvn], ['tv', tvn], ['list', ['tv', tvn]], ['opt', ['tv', tvn]]])
             ast = ['gen', g] + params
             rname = f'r{nroot}'
             nroot += 1
             roots[rname] = ast
-            ops.append({'op': 'subscript', 'name': rname, 't': ast, 'data': probe(ast)})
+            fr = []
+            for p_ in params:
+                free_typevars(p_, fr)
+            if fr:
+                partials[rname] = fr
+            ops.append({'op': 'subscript', 'name': rname, 't': ast, 'g': g, 'data': probe(ast)})
             if any(p_[0] == 'union' for p_ in params) and ro.random() < 0.5:
                 # the same parameters spelled in the other order (equal to typing, different to pane)
                 params2 = [['union'] + list(reversed(p_[1:])) if p_[0] == 'union' else p_ for p_ in params]
@@ -343,7 +385,7 @@ def gen_plan(seed: int, cls: str) -> dict:
                 rname = f'r{nroot}'
                 nroot += 1
                 roots[rname] = ast2
-                ops.append({'op': 'subscript', 'name': rname, 't': ast2, 'data': probe(ast2)})
+                ops.append({'op': 'subscript', 'name': rname, 't': ast2, 'g': g, 'data': probe(ast2)})
         elif name == 'drop':
             if not roots:
                 continue
@@ -364,6 +406,18 @@ def gen_plan(seed: int, cls: str) -> dict:
                     continue
                 kwargs[f['n']] = tg.enc(tg.sample_value(f['t'], sym, ro, valid_p=knobs['valid_p']))
             ops.append({'op': 'construct', 'root': r, 'kwargs': kwargs})
+        elif name == 'resubscript':
+            cands = [r for r in sorted(partials) if r in roots]
+            if not cands:
+                continue
+            base = ro.choice(cands)
+            args = [ro.choice([['s', 'int'], ['s', 'str'], ['s', 'float'], ['s', 'int'], ['list', ['s', 'int']], ['s', 'bool']])
+                    for _ in partials[base]]
+            ast = ['gen2', base] + args
+            rname = f'r{nroot}'
+            nroot += 1
+            roots[rname] = resolve(ast, roots)
+            ops.append({'op': 'subscript', 'name': rname, 't': ast, 'g': roots[base][1], 'data': probe(roots[rname])})
         elif name == 'mkdict':
             if ndict >= 3:
                 continue
@@ -394,6 +448,17 @@ def gen_plan(seed: int, cls: str) -> dict:
         ops.extend(_role_collision_scenario(ro, sym, roots, knobs, hspecs, nroot))
     if ro.random() < 0.5:
         ops.extend(_serialise_history_scenario(ro, sym, roots, ninst))
+    if knobs['faults'] and roots:
+        # a handler that raises part-way through converter construction, then the same call again, then others
+        for _ in range(ro.choice([1, 2])):
+            r = ro.choice(sorted(roots))
+            hname = ro.choice(['faulty_dbl_int', 'faulty_upper_str'])
+            spec = ro.choice([['one', hname], ['seq', 'defer_ni', hname], ['seq', hname, 'inc_int']])
+            data = tg.enc(tg.sample_value(roots[r], sym, ro, valid_p=knobs['valid_p']))
+            pos = ro.randrange(len(ops) + 1)
+            ops[pos:pos] = [{'op': 'arm', 'handler': hname, 'k': ro.choice([1, 1, 2, 3]), 'exc': ro.choice(['RuntimeError', 'KeyError', 'ValueError'])},
+                            {'op': 'convert', 'root': r, 'data': data, 'custom': spec},
+                            {'op': 'convert', 'root': r, 'data': data, 'custom': spec}]
     return {'prop': PROP, 'seed': seed, 'cls': cls, 'knobs': knobs, 'ops': ops}
 
 
@@ -667,7 +732,7 @@ class Exec:
             return mk
         raise HarnessError(f"unknown call spec {cs!r}")
 
-    def fresh_world(self, deps):
+    def fresh_world(self, deps, siblings=True):
         """Replay the definitional history (no conversions) that `deps` depend on into a pristine world."""
         need_cls, need_roots, need_insts = set(), set(), set()
 
@@ -675,6 +740,8 @@ class Exec:
             k = ast[0]
             if k in ('cls', 'gen'):
                 walk_cls(ast[1])
+            elif k == 'gen2':
+                walk_root(ast[1])
             elif k == 'enum':
                 need_cls.add(ast[1])
             elif k == 'ref':
@@ -685,7 +752,7 @@ class Exec:
             elif k == 'ann':
                 walk_ast(ast[1])
             elif k not in ('s', 'cls', 'enum', 'lit', 'ref', 'tv'):
-                for a in ast[{'gen': 2, 'tagged': 3}.get(k, 1):]:
+                for a in ast[{'gen': 2, 'gen2': 2, 'tagged': 3}.get(k, 1):]:
                     walk_ast(a)
 
         def walk_cls(name):
@@ -731,8 +798,10 @@ class Exec:
                     tg.define_enum(op['spec'], w2)
                 elif k == 'build' and op['name'] in need_roots:
                     w2.refs[op['name']] = tg.build(op['t'], w2)
-                elif k == 'subscript' and op['t'][1] in need_cls:
-                    if all(self._deps_ok(a, w2) for a in op['t'][2:]):
+                elif k == 'subscript' and (op['name'] in need_roots or (siblings and op.get('g', op['t'][1]) in need_cls)):
+                    # siblings=True: every earlier subscription of the classes involved is replayed in order, so that
+                    # the subclass memo sees the same history (its order dependence is judged in op_subscript only)
+                    if self._deps_ok(op['t'], w2):
                         w2.refs[op['name']] = tg.build(op['t'], w2)
             for name in need_insts:
                 (root, data) = self.inst_src[name]
@@ -757,7 +826,7 @@ class Exec:
                 return a[1] not in w.classes
             if a[0] == 'enum':
                 return a[1] not in w.enums
-            if a[0] == 'ref':
+            if a[0] in ('ref', 'gen2'):
                 return a[1] not in w.refs
             return False
         return not tg.contains(ast, bad)
@@ -869,7 +938,7 @@ class Exec:
 
     def _buildable(self, ast):
         def ok(a):
-            if a[0] == 'ref':
+            if a[0] in ('ref', 'gen2'):
                 return a[1] in self.world.refs
             if a[0] in ('cls', 'gen'):
                 return a[1] in self.world.classes
@@ -966,41 +1035,62 @@ class Exec:
         self.count('op_serialise')
 
     def op_subscript(self, i, op):
-        """G[params] through pane's subclass memo vs a subclass built afresh for the same parameters."""
+        """
+        G[params] (or a re-subscription of a partially bound G) through pane's subclass memo, compared with
+        (a) a subclass built afresh by the undecorated constructor, where that seam exists, and
+        (b) the same subscription *path* performed alone on freshly defined classes.
+        """
         ast = op['t']
         if not self._buildable(ast):
             self.trace.add('skip', i)
             return
-        G = self.world.classes[ast[1]]
+        pane = self.pane
+        data = tg.dec(op['data'])
         try:
+            base = self.world.classes[ast[1]] if ast[0] == 'gen' else self.world.refs[ast[1]]
             params = tuple(tg.build(a, self.world) for a in ast[2:])
         except HarnessError:
             raise
         except Exception:
             self.trace.add('skip', i, 'params')
             return
-        pane = self.pane
-        data = tg.dec(op['data'])
-        sub = sys.modules['pane.classes'].__dict__.get('_make_subclass')
-        fresh_fn = getattr(sub, '__wrapped__', None)
         try:
-            real_cls = G[params if len(params) != 1 else params[0]]
+            real_cls = base[params if len(params) != 1 else params[0]]
         except Exception as e:
             self.trace.add('subscript', i, 'raised', type(e).__name__)
             return
-        self.world.refs[op['name']] = real_cls
-        self.root_asts[op['name']] = ast
+        rname = op['name']
+        self.world.refs[rname] = real_cls
+        self.root_asts[rname] = ast
         self.def_history.append(op)
         self.count('op_subscript')
-        if fresh_fn is None:
-            self.count('subscript_memo_seam_missing')
-            return
-        fresh_cls = fresh_fn(G, params)
-        # both classes are probed with memoisation of converters bypassed: only the subclass memo differs
+        if ast[0] == 'gen2':
+            self.count('op_resubscript')
+        # converters are built with memoisation bypassed on both sides: only the subclass memo differs
         a, _ = self.side(lambda: pane.from_data(data, real_cls), fresh=True)
-        b, _ = self.side(lambda: pane.from_data(data, fresh_cls), fresh=True)
-        self.trace.add('subscript', i, h64(canon(order_free(a))) % 10**9, h64(canon(order_free(b))) % 10**9)
-        if a != b:
+        candidates = []
+        sub = sys.modules['pane.classes'].__dict__.get('_make_subclass')
+        fresh_fn = getattr(sub, '__wrapped__', None)
+        if fresh_fn is not None:
+            try:
+                fresh_cls = fresh_fn(base, params)
+                candidates.append(('a fresh subclass', self.side(lambda: pane.from_data(data, fresh_cls), fresh=True)[0]))
+            except Exception:
+                pass
+        else:
+            self.count('subscript_memo_seam_missing')
+        fw = self.fresh_world([('root', rname)], siblings=False)
+        if fw is not None:
+            (w2, _i2) = fw
+            T2 = w2.refs.get(rname)
+            if T2 is not None:
+                candidates.append(('the same subscription made alone on freshly defined classes',
+                                   self.side(lambda: pane.from_data(data, T2), fresh=True)[0]))
+                self.count('subscript_path_only_compared')
+        self.trace.add('subscript', i, h64(canon(order_free(a))) % 10**9, [h64(canon(order_free(b))) % 10**9 for (_, b) in candidates])
+        for (label, b) in candidates:
+            if a == b:
+                continue
             bound = getattr(real_cls, '__pane_boundvars__', {})
             cached_params = tuple(bound.values())
             reordered = False
@@ -1013,12 +1103,11 @@ class Exec:
                 self.count('subscript_equal_params_different_order')
                 self.nontrivial = True
                 raise Violation('equal_params_reordered_union',
-                                f"{ast[1]}[{', '.join(map(str, params))}] returned the class memoised for "
-                                f"[{', '.join(map(str, cached_params))}]: {self._short(a)} but a fresh subclass gives {self._short(b)}")
-            raise Violation('history_dependent', f"{ast[1]}[...] behaves differently from a freshly built subclass: "
-                                                 f"{self._short(a)} vs {self._short(b)}")
+                                f"{op.get('g', ast[1])}[{', '.join(map(str, params))}] returned the class memoised for "
+                                f"[{', '.join(map(str, cached_params))}]: {self._short(a)} but {label} gives {self._short(b)}")
+            raise Violation('history_dependent', f"{op.get('g', ast[1])}[{', '.join(map(str, params))}] behaves differently from "
+                                                 f"{label}: {self._short(a)} vs {self._short(b)}")
         # and the ordinary history check on the memoised class
-        rname = op['name']
         cs = {'kind': 'convert', 'root': rname, 'data': op['data'], 'custom': None}
         self.compare(f"from_data(<{rname}>) [subscript]", self.mk_from_cs(cs), deps=[('root', rname)])
 
@@ -1095,7 +1184,7 @@ def execute(plan, want_trace=False) -> dict:
     c = ex.counters
     c['sim_id_calls'] = a.calls
     c['addresses_with_several_owners'] = sum(1 for v in a.owners.values() if v > 1)
-    if c.get('address_recycled'):
+    if c.get('address_recycled') or c.get('lru_full_states') or c.get('handler_dict_mutated'):
         ex.nontrivial = True
     res = {
         'digest': ex.trace.digest(), 'violation': ex.violation, 'counters': c, 'states': sorted(ex.states),
@@ -1106,8 +1195,57 @@ def execute(plan, want_trace=False) -> dict:
     return res
 
 
+def pristine_eval_many(req):
+    """Thread runs: every thread's calls, evaluated sequentially in a pristine process on a fresh world."""
+    ex = Exec(req['plan_stub'])
+    ex.setup(light=True)
+    try:
+        w = ex.world
+        for op in req['setup']:
+            try:
+                if op['op'] == 'defclass':
+                    tg.define_class(op['spec'], w)
+                else:
+                    w.refs[op['name']] = tg.build(op['t'], w)
+            except HarnessError:
+                raise
+            except Exception:
+                pass
+        out = []
+        for ops in req['threads']:
+            fps = []
+            for op in ops:
+                try:
+                    if op['op'] == 'inline':
+                        cs = {'kind': 'inline', 't': op['t'], 'data': op['data'], 'custom': op['custom']}
+                    elif op['op'] == 'lookup':
+                        if op['root'] not in w.refs:
+                            fps.append(None)
+                            continue
+                        cs = {'kind': 'lookup', 'root': op['root'], 'custom': op['custom']}
+                    else:
+                        if op['root'] not in w.refs:
+                            fps.append(None)
+                            continue
+                        cs = {'kind': 'convert', 'root': op['root'], 'data': op['data'], 'custom': op['custom']}
+                    fn = ex.mk_from_cs(cs)(w, {})
+                except HarnessError:
+                    raise
+                except Exception:
+                    fps.append(None)
+                    continue
+                fp, _ = ex.side(fn, fresh=True)
+                fps.append(fp)
+            out.append(fps)
+        return out
+    finally:
+        ex.teardown()
+
+
 def pristine_eval(req):
     """Runs in a worker forked from the pristine oracle server: no conversion has ever happened in this process."""
+    if req.get('many'):
+        return pristine_eval_many(req)
     ex = Exec(req['plan_stub'])
     ex.setup(light=True)
     try:
@@ -1161,6 +1299,7 @@ def _run_one(cfg, item):
 # threads: several simulated caller threads under the baton scheduler
 
 TRACED = ('pane/util.py', 'pane/convert.py')
+TRACED_ALL = TRACED + ('pane/classes.py', 'pane/converters.py', 'pane/annotations.py', 'pane/types.py', 'pane/field.py', 'pane/errors.py')
 
 
 def gen_plan_threads(seed: int) -> dict:
@@ -1175,6 +1314,7 @@ def gen_plan_threads(seed: int) -> dict:
         'p_recycle': rk.choice([0.0, 1.0]),
         'keyspace': rk.choice([2, 3, 4, 6]),
         'valid_p': 0.85,
+        'trace_scope': rk.choice(['memo', 'memo', 'all']),
     }
     plan = {'prop': PROP, 'seed': seed, 'cls': 'threads', 'knobs': knobs, 'setup': [], 'threads': [], 'ops': []}
     if target == 'keycache':
@@ -1238,7 +1378,8 @@ def execute_threads(plan, want_trace=False) -> dict:
     def count(k, n=1):
         counters[k] = counters.get(k, 0) + n
 
-    sched = Scheduler(st.rng('sched'), TRACED, switch_p=knobs['switch_p'], schedule=plan.get('schedule'))
+    sched = Scheduler(st.rng('sched'), TRACED_ALL if knobs.get('trace_scope') == 'all' else TRACED,
+                      switch_p=knobs['switch_p'], schedule=plan.get('schedule'), max_steps=60000)
     sched.region_probe = lambda fr: fr.f_code.co_name == '__call__' and fr.f_code.co_filename.endswith('pane/util.py')
     util = sys.modules['pane.util']
     saved_locks = {n: util.__dict__.get(n) for n in ('RLock', 'Lock')}
@@ -1273,6 +1414,8 @@ def execute_threads(plan, want_trace=False) -> dict:
                 swapped.append((obj, name, val))
                 setattr(obj, name, sched.make_lock())
 
+    from .kernel import PristineServer
+    pristine_srv = PristineServer(pristine_eval) if knobs['target'] != 'keycache' else None
     world = tg.World()
     alloc = SimAlloc(st.rng('alloc'), knobs['p_recycle'], counters=counters)
     results = []      # per thread: list of fingerprints
@@ -1333,7 +1476,7 @@ def execute_threads(plan, want_trace=False) -> dict:
                 if op['op'] == 'lookup':
                     def call():
                         conv = conv_mod.make_converter(T, conv_mod.ConverterHandlers.make(H))
-                        return [type(conv).__name__, conv.expected()]
+                        return [type(conv).__name__, conv.expected(), conv.expected(True)]
                     return call
                 data = tg.dec(op['data'])
                 return lambda: pane.from_data(data, T, custom=H)
@@ -1356,19 +1499,12 @@ def execute_threads(plan, want_trace=False) -> dict:
                         return None
                 return world.refs.get(op['root'])
 
-            # reference outcomes, computed sequentially with memoisation bypassed
-            saved = s.current_mc
-            s.bind_mc(s.undecorated)
-            try:
-                for ops in plan['threads']:
-                    exp = []
-                    for op in ops:
-                        T = get_T(op)
-                        exp.append(None if T is None else fp_of(make_call(op, T)))
-                        T = None
-                    expected.append(exp)
-            finally:
-                s.bind_mc(saved)
+            # reference outcomes: the same calls made one after another, single-threaded, with memoisation
+            # bypassed, on freshly defined type objects in a process that has not run anything else (so that
+            # computing the reference cannot pre-initialise any lazily built state the threads will race on)
+            expected.extend(pristine_srv.call({'many': True, 'plan_stub': {'prop': PROP, 'seed': plan['seed'], 'cls': 'norecycle',
+                                               'knobs': {'p_recycle': 0.0, 'lru': None}, 'ops': []},
+                                               'setup': plan['setup'], 'threads': plan['threads']}))
 
             def body(ops, out):
                 def run():
@@ -1422,6 +1558,8 @@ def execute_threads(plan, want_trace=False) -> dict:
             except Violation as v:
                 violation = {'kind': v.kind, 'detail': v.detail}
     finally:
+        if pristine_srv is not None:
+            pristine_srv.close()
         for (obj, name, val) in swapped:
             setattr(obj, name, val)
         alloc.active = False
@@ -1432,8 +1570,9 @@ def execute_threads(plan, want_trace=False) -> dict:
         violation.update({'op_index': 0, 'op': 'threads', 'signature': 'threads:' + violation['kind']})
         trace.add('violation', violation['kind'], violation['detail'])
     counters['sim_id_calls'] = alloc.calls
-    res = {'digest': trace.digest(), 'violation': violation, 'counters': counters, 'states': [],
+    res = {'digest': trace.digest(), 'violation': violation, 'counters': counters,
            'nontrivial': sched.switches > 0, 'nops': sum(len(x) for x in plan['threads']),
+           'states': [h64('sched', canon(sched.schedule_out))],
            'schedule': sched.schedule_out}
     if want_trace:
         res['trace'] = trace.events + [('schedule_full', sched.schedule_out)]
@@ -1640,11 +1779,12 @@ def coverage(agg, conf):
                  "dataclass, drop a root, collect garbage, evict typing's caches, arm a handler fault) executed against "
                  "the real pane memo with `id`, gc, typing caches, LRU size and handler faults behind seams; every "
                  "observable outcome is compared with the same call with memoisation bypassed; distinct = distinct run "
-                 "digest; non-trivial = the run recycled at least one address, evicted from the LRU, fired a handler "
-                 "fault, or hit the equal-but-reordered subscript case"),
+                 "digest; non-trivial = the run recycled at least one address, ran with a full LRU memo, fired a handler "
+                 "fault, mutated a handler dict, hit the equal-but-reordered subscript case, or (thread runs) had at least one "
+                 "context switch"),
         'samples': agg['samples'][:3],
         'states': len(agg['states']),
-        'states_measure': 'distinct (memo size, live roots, free addresses, live allocator entries, kept instances) tuples after an operation',
+        'states_measure': 'distinct (memo size, live roots, free addresses, live allocator entries, kept instances) tuples after an operation, plus distinct complete thread schedules',
         'faults_fired': {
             'address_recycled': c.get('address_recycled', 0),
             'type_died (refcount / weakref)': c.get('type_died', 0),
@@ -1655,9 +1795,12 @@ def coverage(agg, conf):
         },
         'reach_probes': dict(sorted(c.items())),
         'components': {
-            'real': ['pane (from /repo working tree): make_converter, KeyCache, converters, dataclasses, _make_subclass',
-                     'typing caches', 'CPython reference counting and cyclic gc (invoked only as explicit operations)'],
-            'stub': ['id() inside pane modules (sim_id)', 'user handlers / types (workload)'],
+            'real': ['pane (from /repo working tree): make_converter, KeyCache (unbounded and LRU), converters, dataclasses, _make_subclass',
+                     'typing caches', 'CPython reference counting and cyclic gc (invoked only as explicit operations)',
+                     'real threading.Thread objects (released one at a time by the baton scheduler)'],
+            'stub': ['id() inside pane modules (sim_id)', 'locks created by / found on the memo object (SimRLock)',
+                     'the choice of which thread runs (scheduler, sys.settrace line events in pane/util.py and pane/convert.py)',
+                     'user handlers / types (workload)'],
         },
     }
     cov.update(agg.get('extra', {}))
